@@ -65,11 +65,15 @@ func (s *ContextScope) Stop() {
 
 // Err return cumulative error if the scope context contains any error
 func (s *ContextScope) Err() error {
-	return goaterr.ToError(s.errors)
+	return goaterr.ToError(s.Errors())
 }
 
 // Errors return scope errors
 func (s *ContextScope) Errors() []error {
+	// read under the lock of AppendError: an unsynchronised read can pair the new
+	// length of the list with its old (nil) array
+	s.errorsMU.Lock()
+	defer s.errorsMU.Unlock()
 	return s.errors
 }
 
